@@ -28,7 +28,7 @@ Proof.
   - constructor; cbn; auto. intros k v idx Hk. destruct k; discriminate.
   - constructor; cbn; [intros loc []|intros a b []|constructor].
   - reflexivity.
-  - cbn. constructor; [|constructor]. repeat split; cbn; auto. left. eexists; split; [reflexivity|discriminate].
+  - cbn. constructor; [|constructor]. repeat split; cbn; auto. left. exists [], None. repeat split; try discriminate; exact Logic.I.
   - left. reflexivity.
 Qed.
 
@@ -67,7 +67,8 @@ Proof.
   assert (P1 : pres nl (init_fstate next) sf vf).
   { eapply (pure_seq nl cx (lsize is) is (le_n _)); eauto. left. reflexivity. }
   destruct (compile_cons _ _ _ _ _ _ _ Hc2) as (vc & sc & Evc & Ehc & Hcr). cbn in Hcr. inversion Hcr; subst vc sc; clear Hcr.
-  destruct (op_end nl cx sf vf v' sF (p_inv _ _ _ _ P1) Evc Ehc) as (j & bp' & E1 & E2 & E3 & E4 & E5 & E6 & E7 & E8 & X3 & Rs & Ic & Huc).
+  assert (Hnr : match c_bp sf with j :: _ => no_res j | [] => True end) by (eapply bp_sub_head_nores; [apply (p_bp _ _ _ _ P1)|exact Logic.I]).
+  destruct (op_end nl cx sf vf v' sF (p_inv _ _ _ _ P1) Hnr Evc Ehc) as (j & bp' & E1 & E2 & E3 & E4 & E5 & E6 & E7 & E8 & X3 & Rs & Ic & Huc).
   assert (Ebp' : bp' = []).
   { pose proof (p_bp _ _ _ _ P1) as Hb. rewrite E1 in Hb. cbn in Hb. inversion Hb as [|? ? ? ? _ Hb']; subst. inversion Hb'. reflexivity. }
   pose proof (p_bp _ _ _ _ P1) as Hb0. rewrite E1 in Hb0. cbn [init_fstate c_bp] in Hb0.
@@ -77,7 +78,7 @@ Proof.
   assert (Mf : matches F sf) by (eapply matches_ext; eauto).
   assert (LF : lenv c sF []) by (unfold lenv; rewrite E2, Ebp'; constructor).
   assert (Ebp : c_bp sf = JUnknown locs None :: c_bp sF) by (rewrite E1, E2; reflexivity).
-  assert (Lf : lenv c sf [(cur_off sf, 0)]) by (eapply (lenv_end c F HF Hlen); eauto).
+  assert (Lf : lenv c sf [(cur_off sf, 0, None)]) by (eapply (lenv_end c F HF Hlen); eauto).
   assert (Mo : mono sf sF) by (apply mono_eq; auto).
   assert (SmF : small NR sF) by (split; [unfold NR; lia|exact Hcs]).
   assert (CoF : consts_ok consts sF).
@@ -85,9 +86,9 @@ Proof.
     rewrite map_nth. erewrite nth_error_nth; [|exact Hk]. reflexivity. }
   destruct fuel as [|f]; [cbn; exact I|].
   pose proof (sim_all art mhost codes fidx c consts Hcodes nl NR Hn cap host m cx F HF Hlen f f (le_n _)
-                is (init_fstate next) (init_vstate None) vf sf [(cur_off sf, 0)] st locals [] M Hc1 Hok I0 eq_refl
+                is (init_fstate next) (init_vstate None) vf sf [(cur_off sf, 0, None)] st locals [] M Hc1 Hok I0 eq_refl
                 (or_introl eq_refl) Mf Lf) as Hsim.
-  assert (Hlo : lows [(cur_off sf, 0)] (init_fstate next)).
+  assert (Hlo : lows [(cur_off sf, 0, None)] (init_fstate next)).
   { constructor; [|constructor]. split; [cbn; lia|]. cbn [fst]. apply (T_range F Hlen sf). exact Mf. }
   specialize (Hsim Hlo (small_of_mono NR sf sF SmF Mo) (consts_ok_of_mono consts sf sF CoF Mo) R).
   assert (Hbridge : forall st1 l1 M1, rel art fidx consts nl NR cap sf st1 l1 [] M1 ->
